@@ -36,24 +36,33 @@ AUDIT = 'DeepModel/Audit/C02.lean'
 DRIVER = 'DeepModel/Driver/C02.lean'
 BUDGET = {'quick': 400, 'thorough': 4000}
 TIME = {'quick': 70, 'thorough': 800}
-RULE = ('generated host programs: call chain 1-6 levels of kinds {function, default args, *args/**kw, method, '
-        'classmethod, staticmethod, closure, method of a nested class, recursive, library module calling back through '
-        'a lambda} x 0-6 locals per level of kinds {scalars incl. unicode/long strings, nested list/tuple/set/dict '
-        'beyond the depth and size limits, non-str keys, user objects with private/protected/inherited/slotted '
-        'attributes, nested and local classes, list/dict subclasses, exceptions with args, iterators/generators, '
-        'functions/classes/modules, shared references, self/mutual cycles, del-ed and shadowing locals} x tracepoint '
-        '{line | function entry} at a generated position x frame_type {single_frame, all_frame, no_frame, unknown '
-        'text, absent} x 0-4 watches over locals/globals/caller-only names/failing expressions x fire_count {1, every '
-        'hit} x limits {default, small via action config} x APP_ROOT/IN_APP_INCLUDE/IN_APP_EXCLUDE sets. Distinct = '
-        'distinct canonical JSON. Non-trivial = snapshot with >= 2 program frames and >= 1 collected variable that '
-        'has children.')
+RULE = ('generated host programs (two modules, app/ and lib/): call chain 1-6 levels of kinds {function, default args, '
+        '*args/**kw, method (on plain / inheriting / falsy self), classmethod, staticmethod, closure, method of a '
+        'nested class, recursive, library function calling back through a lambda}, optionally run twice x 0-6 locals '
+        'per level of kinds {scalars incl. unicode / 1024-1025 char strings, nested list/tuple/set/dict beyond the '
+        'depth and size limits, non-str keys, user objects with private / protected / inherited / slotted attributes, '
+        'nested and local classes, list/dict subclasses, exceptions with args, iterators/generators, functions / '
+        'classes / modules, shared references, self and mutual cycles, del-ed, shadowing and underscore-named locals} x '
+        'tracepoint {line | function entry} at a generated position, optionally a twin tracepoint at the same '
+        'location x frame_type {single_frame, all_frame, no_frame, unknown text, empty, absent} x 0-6 watches over '
+        'locals / globals / caller-only names / failing expressions / pairs of fresh temporaries x fire_count {1, 2, '
+        'every hit} x limits {default, small via action config} x APP_ROOT / IN_APP_INCLUDE / IN_APP_EXCLUDE given in '
+        'code or through DEEP_IN_APP_* environment variables.  Distinct = distinct canonical JSON.  Non-trivial = a '
+        'snapshot with >= 2 program frames and >= 1 collected variable that has children.')
 TRUSTED = ['CPython frame objects (f_back, f_locals, f_code, f_lineno) and sys.settrace event delivery are read, not '
-           'modelled; run A and run B of one program take the same path',
-           'eval() of a watch expression: the model receives the value the recorder computed per frame as an oracle',
-           'masking of 0x<address> and @<id> in value texts before comparison']
+           'modelled; run A (agent) and run B (recorder) of one program take the same path',
+           'eval() of a watch expression: the model receives the object the recorder computed per frame as an oracle',
+           'masking of 0x<address> and @<id> inside value texts before comparison (addresses differ between the runs)',
+           'frames below the program (run_on_thread, threading.py) are compared by file/function/line/class/app flag '
+           'and variable names; their object graphs are not recorded']
 ASSUMPTIONS = ['watch expressions and __str__ of host objects are free of side effects',
                'no local refers to the frame\'s own locals() dict (known finding C07/locals-dict-self-reference)',
-               'the time budget (MAX_TP_PROCESS_TIME) is not reached: the collector clock is scripted']
+               'the time budget (MAX_TP_PROCESS_TIME) is not reached: the collector clock is scripted',
+               'no log_msg on the snapshot tracepoint (log expressions are C16)',
+               'tracepoint echo, main stream: the arguments compared are those the snapshot action keeps (frame_type, '
+               'stack_type, fire_count, fire_period, log_msg, limits); the strict-echo stream (every 17th case) is '
+               'judged by the full statement and is the known finding C02/echo-drops-condition '
+               '(notes/probes/c02_observations.py; Lean: c02_echo_all_args_partial + c02_echo_drops_condition_witness)']
 
 HOST_FRAME_TYPES = [None, 'single_frame', 'all_frame', 'no_frame', 'weird_type', '']
 SNAP_KEYS = ['frame_type', 'stack_type', 'fire_count', 'fire_period', 'log_msg']
@@ -134,7 +143,7 @@ def gen_case(rng, force=None):
     if kind == 'entry':
         tp['method'] = cand['func']
         tp['args']['method_name'] = cand['func']
-        tp['watches'] = [w for w in tp['watches'] if not w.startswith('x')]
+        tp['watches'] = [w for w in tp['watches'] if not w.lstrip('_').startswith('x')]
     ft = force['frame_type'] if 'frame_type' in force else rng.choice(HOST_FRAME_TYPES + ['all_frame', 'single_frame'])
     if ft is not None:
         tp['args']['frame_type'] = ft
@@ -168,11 +177,40 @@ def gen_case(rng, force=None):
             'meta': {'kinds': prog['kinds'], 'level': cand['level'], 'text': cand['text']}}
 
 
+DROPPED_ARGS = ('condition', 'method_name', 'stage', 'snapshot', 'span')
+FINDING_ECHO = 'C02/echo-drops-condition'
+
+
+def echo_instance(case):
+    """structural predicate of known finding C02/echo-drops-condition: the tracepoint has an argument the snapshot
+    action does not keep, or it is a function-entry tracepoint (whose configured line is not echoed)."""
+    tp = case['tp']
+    return bool(tp.get('method')) or any(k in tp['args'] for k in DROPPED_ARGS)
+
+
+def gen_strict_echo(rng):
+    """the known-finding stream: same programs, tracepoints with arguments the action drops; judged by the FULL
+    statement (the echo is the tracepoint's own id, path, line, arguments, watches)."""
+    r = rng.random()
+    case = gen_case(rng, {'kind': 'entry' if r < 0.3 else 'line'})
+    a = case['tp']['args']
+    if r >= 0.3 or rng.random() < 0.5:
+        a['condition'] = rng.choice(['True', 'G_INT > 0', '1 == 1'])
+    if rng.random() < 0.3:
+        a['stage'] = 'method_start' if case['tp'].get('method') else 'line_start'
+    if rng.random() < 0.2:
+        a['snapshot'] = 'collect'
+    case['strict_echo'] = True
+    return case
+
+
 def gen(rng, tier):
     k = 0
     while True:
         k += 1
-        if k % 7 == 0:
+        if k % 17 == 0:
+            yield gen_strict_echo(rng)
+        elif k % 7 == 0:
             yield gen_case(rng, {'frame_type': 'all_frame'})
         elif k % 11 == 0:
             yield gen_case(rng, {'limits': True})
@@ -616,8 +654,13 @@ class Matcher:
         vid = str(vid)
         if vid in self.v2o or obj in self.o2v:
             if self.v2o.get(vid) != obj or self.o2v.get(obj) != vid:
-                self.err('%s: id %s stands for object #%s elsewhere, here for #%s (identity)' %
-                         (where, vid, self.v2o.get(vid), obj))
+                if vid in self.v2o:
+                    self.err('%s: id %s, which elsewhere in the snapshot stands for a different object (%s #%s, '
+                             'here %s #%s)' % (where, vid, self.heap[self.v2o[vid]]['ty'], self.v2o[vid],
+                                               self.heap[obj]['ty'], obj))
+                else:
+                    self.err('%s: id %s, but the same object (%s #%s) has id %s elsewhere in the snapshot' %
+                             (where, vid, self.heap[obj]['ty'], obj, self.o2v[obj]))
             return
         self.v2o[vid], self.o2v[obj] = obj, vid
         self.todo.append((where, vid, obj))
@@ -636,6 +679,8 @@ class Matcher:
             return None
         if name != key:
             return 'name %r, expected %r' % (name, key)
+        if orig is not None:
+            return 'name %r carries an original name %r' % (name, orig)
         return None
 
     def run(self):
@@ -738,6 +783,20 @@ def check_echo(case, env, snap, out, tid='tp-c02'):
             out.append('tracepoint arg %s=%r, configured %r' % (k, args.get(k), v))
 
 
+def check_echo_full(case, env, snap, out):
+    """the full statement: the snapshot names the tracepoint that fired — every argument it was configured with,
+    and the line it was configured at."""
+    tp = case['tp']
+    t = snap['tracepoint']
+    for k, v in tp['args'].items():
+        if k not in t['args']:
+            out.append('tracepoint argument %s=%r is not in the echoed args %s' % (k, v, sorted(t['args'])))
+        elif t['args'][k] != v:
+            out.append('tracepoint argument %s=%r echoed as %r' % (k, v, t['args'][k]))
+    if t['line'] != tp['line']:
+        out.append('tracepoint line %r, configured %r' % (t['line'], tp['line']))
+
+
 def expected_count(case, nrec):
     a = case['tp']['args']
     try:
@@ -830,6 +889,17 @@ def check_snapshot(case, env, snap, rec, out, first_hit=True):
 
 
 def oracle(case, obs):
+    out = oracle_main(case, obs)
+    if case.get('strict_echo') and 'raised' not in obs['agent']:
+        ids = tp_ids(case)
+        for k, snap in enumerate(obs['agent']['snaps'][:4]):
+            sub = []
+            check_echo_full(case, obs['env'], snap, sub)
+            out += ['hit %d (%s): %s' % (k // len(ids), ids[k % len(ids)], s) for s in sub]
+    return out
+
+
+def oracle_main(case, obs):
     out = []
     a, b = obs['agent'], obs['rec']
     if 'raised' in a:
@@ -1013,7 +1083,8 @@ def label(case, obs):
     tp = case['tp']
     ft = tp['args'].get('frame_type', '<absent>')
     n = obs['agent'].get('count', 0)
-    return '%s/%s/%s/%s' % ('entry' if tp.get('method') else 'line', ft or "''",
+    return '%s%s/%s/%s/%s' % ('strict-echo:' if case.get('strict_echo') else '',
+                              'entry' if tp.get('method') else 'line', ft or "''",
                             'limits' if tp.get('limits') else 'default', 'none' if n == 0 else 'one' if n == 1 else 'many')
 
 
@@ -1026,15 +1097,72 @@ def nontrivial(case, obs):
 
 
 def known_finding(case, obs):
+    """C02/echo-drops-condition: only for cases of the strict-echo stream that satisfy the finding's structural
+    predicate, and only when nothing but the echo is wrong (any other violation is reported as such)."""
+    if case.get('strict_echo') and echo_instance(case) and not oracle_main(case, obs):
+        return FINDING_ECHO
     return None
 
 
 def known_replays():
-    return []
+    a = c02_gen.PRELUDE_A + CORPUS_BODY
+    line = next(i + 1 for i, l in enumerate(a.split('\n')) if '#L1' in l)
+    return [(FINDING_ECHO,
+             "line tracepoint with a `condition` argument: the tracepoint echoed in the snapshot lacks `condition` "
+             "(the echo is the snapshot action's config, not the tracepoint's args)",
+             {'kind': 'prog', 'a': a, 'b': c02_gen.PRELUDE_B, 'strict_echo': True,
+              'tp': {'file': 'a', 'line': line, 'args': {'condition': 'first >= 0'}, 'watches': []},
+              'app': {'APP_ROOT': '$HOST/app'}, 'meta': {'kinds': ['known'], 'level': 0, 'text': 'known'}})]
+
+
+CORPUS_BODY = '''
+
+def inner(first, second):
+    total = first + second      #L1
+    return total
+
+
+class Basket(EmptyBox):
+    def add(self, item):
+        before = len(self.items)    #L2
+        self.items.append(item)
+        return inner(before, 9000)
+
+
+def main():
+    b = Basket()
+    b.add(7)
+    return b.add(8)
+'''
 
 
 def corpus():
-    return []
+    """hand-written regression cases: shapes of past defects (new-valued watch after the frame, falsy self, two
+    tracepoints on one line, globals in watches, fresh temporaries, DEEP_IN_APP_EXCLUDE list, limits for watches)."""
+    a = c02_gen.PRELUDE_A + CORPUS_BODY
+    b = c02_gen.PRELUDE_B
+    lines = a.split('\n')
+    l1 = next(i + 1 for i, l in enumerate(lines) if '#L1' in l)
+    l2 = next(i + 1 for i, l in enumerate(lines) if '#L2' in l)
+
+    def case(tp, app=None):
+        tp.setdefault('args', {})
+        tp.setdefault('watches', [])
+        return {'kind': 'prog', 'a': a, 'b': b, 'tp': tp, 'app': app or {'APP_ROOT': '$HOST/app'},
+                'meta': {'kinds': ['corpus'], 'level': 0, 'text': 'corpus'}}
+    every = {'fire_count': '-1', 'fire_period': '0'}
+    return [
+        case({'file': 'a', 'line': l1, 'args': dict(every, frame_type='all_frame'),
+              'watches': ['first + second', 'G_INT', 'b', 'second']}),
+        case({'file': 'a', 'line': l2, 'args': dict(every), 'watches': ['{"k": 1}', '{"k": 2}', 'self', 'G_LIST']}),
+        case({'file': 'a', 'line': l1, 'args': {'frame_type': 'no_frame'}, 'twin': True, 'watches': ['total']}),
+        case({'file': 'a', 'line': l1, 'args': {}, 'twin': True, 'watches': ['first']}),
+        case({'file': 'a', 'line': l1, 'method': 'inner', 'args': {'method_name': 'inner', 'frame_type': 'weird'},
+              'watches': ["G_STR * 5", 'list(range(30))'],
+              'limits': {'MAX_STRING_LENGTH': 8, 'MAX_COLLECTION_SIZE': 2, 'MAX_VAR_DEPTH': 3}}),
+        case({'file': 'a', 'line': l2, 'args': {'frame_type': 'all_frame'}, 'watches': []},
+             {'APP_ROOT': '$HOST', 'ENV_IN_APP_EXCLUDE': '$HOST/lib,$STD', 'IN_APP_INCLUDE': ['$HOST/app']}),
+    ]
 
 
 def shrink(case):
